@@ -79,6 +79,8 @@ def make_xx(cfg):
     attrs = {}
     if cfg.get("nodata") is not None:
         attrs[cfg.get("nodata_attr", "nodata")] = cfg["nodata"]
+    if cfg.get("fill_value_attr") is not None:
+        attrs["_FillValue"] = cfg["fill_value_attr"]       # present besides `nodata` (which wins) and different
     xx = xr.DataArray(data, dims=dims, coords=coords, attrs=attrs)
     return xx, pix, gbox
 
